@@ -343,6 +343,11 @@ func genCfg(seed uint64, n int, tier string, emit func(string, []string, any)) {
 				map[string]any{"description": "oauth", "name": "oa", "type": "oauth2", "flows": map[string]any{
 					"authorizationCode": map[string]any{"authorizationUrl": "https://a.example.com/auth", "tokenUrl": "https://a.example.com/token", "scopes": map[string]any{"items:read": "read items"}},
 					"clientCredentials": map[string]any{"tokenUrl": "https://a.example.com/token", "scopes": map[string]any{"items:admin": "administer"}}}}},
+			[]any{map[string]any{"description": "d", "name": "sec0", "fieldName": "x-key", "type": "apiKey", "in": "header"},
+				map[string]any{"description": "oauth", "name": "oa2", "type": "oauth2", "flows": map[string]any{
+					"password":          map[string]any{"tokenUrl": "https://a.example.com/token", "refreshUrl": "https://a.example.com/refresh-pw", "scopes": map[string]any{"p": "password scope"}},
+					"clientCredentials": map[string]any{"tokenUrl": "https://a.example.com/token2", "scopes": map[string]any{"c": "client scope"}},
+					"implicit":          map[string]any{"authorizationUrl": "https://a.example.com/auth", "refreshUrl": "https://a.example.com/refresh-im", "scopes": map[string]any{"i": "implicit scope"}}}}},
 			[]any{map[string]any{"description": "d", "name": "sec0", "fieldName": "x-key", "type": "apiKey", "in": "cookie"},
 				map[string]any{"description": "oidc", "name": "oidc", "type": "openIdConnect", "openIdConnectUrl": "https://id.example.com/.well-known/openid-configuration"}},
 		}},
